@@ -46,9 +46,14 @@ def replay(ctx):
 
 def report(ctx, profiles, divs):
     seen = set()
+    confirmed = [d for d in divs if not d["signature"].startswith("UNCONFIRMED:")]
     for d in divs:
         sig = d["signature"]
         if sig.startswith("UNCONFIRMED:"):
+            if confirmed:
+                # next to divergences that did repeat: not reported, only counted (a verdict rests on repeated behaviour only)
+                ctx.cov["timing_unconfirmed"] = ctx.cov.get("timing_unconfirmed", 0) + 1
+                continue
             raise vlib.MachineryError("flaky scenario (diverged under load, conformant alone): " + d["what"][:600] + " " +
                                       json.dumps(d.get("extra"))[:1500])
         if sig in seen:
@@ -88,23 +93,29 @@ def run(ctx):
         json.dump([p for p in profiles if p["name"] == "pack"], fh)
     drv2 = wsconn_lib.Driver(binpath, packpath, ["-par", "32", "-soft", "1500" if q else "2500", "-patient", "5000" if q else "15000",
                                                  "-maxpkt", str(wsconn_lib.PACK_MAXPKT)])
+    # a third broker for the scenarios that leave unread bytes behind DISCONNECT, one at a time, each followed by fresh connections
+    drv3 = wsconn_lib.Driver(binpath, profpath, ["-par", "1", "-victims", "3", "-soft", "1500" if q else "2500", "-patient", "5000" if q else "15000"])
     design = {}
     pack_results = []
     def pack_side():
         pack_results.extend(wsconn_lib.run_jobs(ctx, geo, wsconn_lib.plan_pack(ctx, geo), drv2))
+        pack_results.extend(wsconn_lib.run_jobs(ctx, geo, wsconn_lib.plan_trail(ctx, geo), drv3))
     results = wsconn_lib.run_jobs(ctx, geo, jobs, drv, extra_threads=[threading.Thread(target=design_level, args=(ctx, design, w)) for w in ("bin", "text", "impl")]
                                   + [threading.Thread(target=pack_side)])
     t1 = vlib.time.time() - ctx.t0
     summary, divs = drv.finish(240 if q else 1200)
     summary2, divs2 = drv2.finish(240 if q else 1200)
+    summary3, divs3 = drv3.finish(240 if q else 1200)
     results += pack_results
-    divs += divs2
-    for k in ("n", "nontrivial", "strict", "text", "messages", "bytes", "diverging_scenarios"):
-        summary[k] = summary.get(k, 0) + summary2.get(k, 0)
-    for k, v in (summary2.get("per_family") or {}).items():
-        summary["per_family"][k] = summary["per_family"].get(k, 0) + v
-    for k, v in (summary2.get("by_signature") or {}).items():
-        summary["by_signature"][k] = summary["by_signature"].get(k, 0) + v
+    divs += divs2 + divs3
+    for sm in (summary2, summary3):
+        for k in ("n", "nontrivial", "strict", "text", "messages", "bytes", "diverging_scenarios"):
+            summary[k] = summary.get(k, 0) + sm.get(k, 0)
+        for k, v in (sm.get("per_family") or {}).items():
+            summary["per_family"][k] = summary["per_family"].get(k, 0) + v
+        for k, v in (sm.get("by_signature") or {}).items():
+            summary["by_signature"][k] = summary["by_signature"].get(k, 0) + v
+    ctx.cov["unread_tail_run"] = {"segmentations": summary3["n"], "fresh_connections_after_each": 3}
     ctx.cov["small_max_packet_size_run"] = {"max_packet_size": wsconn_lib.PACK_MAXPKT, "segmentations": summary2["n"]}
     ctx.cov["phases_s"] = {"enumeration_done": round(t1, 1), "driver_done": round(vlib.time.time() - ctx.t0, 1)}
 
